@@ -80,6 +80,7 @@ def cases(tier):
         add("xmini", explorer.enumerate_histories("xmini", 2, {"xblock": True, "thin": True, "only": {"set_ref", "delete", "reopen", "unlink"}}), ["AB"])
         for ent in (["blocks", "blk", "groups", "grp"], ["blocks", "blk", "tags", "tag"], ["blocks", "blk", "data_arrays", "sig"]):
             add("mini", [h for h in explorer.enumerate_histories("mini", 3, handle_cfg(ent)) if len(h) == 3], ["AB", "AAB", "ABB"])
+    out.append({"mode": "dims11"})        # an array of rank 11: descriptors 1..11 in order, also after reopening
     # E1s: explicit-state BFS with de-duplication on the canonical state (mc/bfs.py)
     if tier == "quick":
         plan = [("mini", 1, "thin")]
@@ -99,6 +100,11 @@ BFS_STATS = {}
 
 def run_case(case):
     r = R()
+    if case.get("mode") == "dims11":
+        from checks import C03
+        r.evals = 1
+        C03.run_dims11(r, prop="C02")
+        return r
     if case.get("mode") == "expand":
         bfs.expand_state("C02", case, r, BFS_CFG[case["cfg"]])
         return r
